@@ -173,10 +173,46 @@ func runC17(p *Prog, l *Ledger) {
 			}
 		}
 		guards := map[string]int{}
+		// one mutex field of one type held at every access (exclusively at every write), although the object is not
+		// reached through that owner: an element of a container protected by the container's mutex
+		foreign := ""
+		if !allAtomic {
+			var common map[string]bool
+			for i, a := range accs {
+				ids := c17TypedLocks(a)
+				mine := map[string]bool{}
+				for id, ex := range ids {
+					if ex || !a.a.Write {
+						mine[id] = true
+					}
+				}
+				if i == 0 {
+					common = mine
+				} else {
+					for id := range common {
+						if !mine[id] {
+							delete(common, id)
+						}
+					}
+				}
+			}
+			var ids []string
+			for id := range common {
+				ids = append(ids, id)
+			}
+			sort.Strings(ids)
+			if len(ids) > 0 {
+				foreign = ids[0]
+			}
+		}
 		if !allAtomic {
 			muName := ""
 			for _, a := range accs {
 				g := a.guard
+				if g == "none" && foreign != "" {
+					guards["foreign"]++
+					continue
+				}
 				guards[strings.SplitN(g, ":", 3)[0]]++
 				at := fmt.Sprintf("%s in %s", p.At(a.a.Instr), p.Key(a.fn))
 				kind := "read"
@@ -224,6 +260,9 @@ func runC17(p *Prog, l *Ledger) {
 			how = fmt.Sprintf("%d accesses, all under the object's mutex (writes exclusive)", len(accs))
 			if guards["owner"] > 0 {
 				how += fmt.Sprintf(", %d through a verified owner", guards["owner"])
+			}
+			if guards["foreign"] > 0 {
+				how = fmt.Sprintf("%d accesses, every one holding %s (writes exclusively); that an instance is reached under one such mutex only is taken from the container discipline, not proved", len(accs), foreign)
 			}
 		}
 		l.Check(len(bad) == 0, "O1", k, p.At(accs[0].a.Instr), how, "a mutable location can be accessed without a common lock: data race", bad...)
@@ -762,4 +801,80 @@ func c17ConstructionOption(p *Prog, f *ssa.Function, a FieldAccess) bool {
 	res := okAll && ncalls > 0
 	p.optCache[key] = res
 	return res
+}
+
+// c17TypedLocks names the locks held at an access by the mutex field's identity (package.Type.field) instead of by the
+// path they are reached through: identity -> held exclusively.
+func c17TypedLocks(a *c17Access) map[string]bool {
+	out := map[string]bool{}
+	for k, ex := range a.held {
+		parts := strings.Split(k, ".")
+		if len(parts) < 2 || strings.ContainsAny(k, "^[]*()") {
+			continue
+		}
+		var root ssa.Value
+		for _, q := range a.fn.Params {
+			if q.Name() == parts[0] {
+				root = q
+			}
+		}
+		for _, q := range a.fn.FreeVars {
+			if q.Name() == parts[0] {
+				root = q
+			}
+		}
+		if root == nil {
+			allInstrs(a.fn, func(ins ssa.Instruction) {
+				if v, ok := ins.(ssa.Value); ok && v.Name() == parts[0] {
+					root = v
+				}
+			})
+		}
+		if root == nil {
+			continue
+		}
+		t := root.Type()
+		var owner *types.Named
+		ok := true
+		for i := 1; i < len(parts); i++ {
+			nt := derefNamed(t)
+			if nt == nil {
+				// a captured variable is a pointer to the variable
+				if pt, isP := t.Underlying().(*types.Pointer); isP {
+					nt = derefNamed(pt.Elem())
+				}
+			}
+			if nt == nil {
+				ok = false
+				break
+			}
+			st, isS := nt.Underlying().(*types.Struct)
+			if !isS {
+				ok = false
+				break
+			}
+			found := false
+			for j := 0; j < st.NumFields(); j++ {
+				if st.Field(j).Name() == parts[i] {
+					owner = nt
+					t = st.Field(j).Type()
+					found = true
+				}
+			}
+			if !found {
+				ok = false
+				break
+			}
+		}
+		if !ok || owner == nil || owner.Obj().Pkg() == nil {
+			continue
+		}
+		id := owner.Obj().Pkg().Path() + "." + owner.Obj().Name() + "." + parts[len(parts)-1]
+		if ex {
+			out[id] = true
+		} else if _, seen := out[id]; !seen {
+			out[id] = false
+		}
+	}
+	return out
 }
